@@ -47,7 +47,7 @@ func (c10) Mandatory(tier string) []string {
 	m := []string{"layout:folded-comma-list", "layout:single-line-comma-list", "layout:folded-dependency", "layout:checksum-block", "layout:blanks-before-separator", "size:>=2^31", "size:int-field>=2^31", "entry:ParseDscFile-relative-path", "entry:ParseChangesFile", "entry:ParseControlFile", "reader:bufio-smaller-than-4096", "accessor:Maintainers", "accessor:HasArchAll:true",
 		"accessor:HasArchAll:false", "accessor:AbsFiles", "accessor:DebianSource:found", "accessor:DebianSource:none", "accessor:GetDSC", "accessor:SourcePackage:binnmu",
 		"accessor:SourcePackage:default", "accessor:GetDepends", "accessor:GetBuildDepends", "accessor:Checksums:sha256", "accessor:Checksums:sha512", "accessor:Checksums:none",
-		"accessor:SourceName", "arch:two-part", "arch:all", "arch:wildcard"}
+		"accessor:SourceName", "accessor:ByHashPath", "arch:two-part", "arch:all", "arch:wildcard"}
 	for _, t := range []interface{}{control.DSC{}, control.Changes{}, control.SourceParagraph{}, control.BinaryParagraph{}, control.BinaryIndex{}, control.SourceIndex{}, deb.Control{}, control.BestChecksums{}} {
 		rt := reflect.TypeOf(t)
 		for i := 0; i < rt.NumField(); i++ {
@@ -1176,6 +1176,13 @@ func (p c10) best(c *core.C, r *core.Rand) {
 	}
 	if !reflect.DeepEqual(normalizeNil(cs), normalizeNil(want)) {
 		c.Failf("BestChecksums.Checksums() = %+v, the document says %+v\ndocument: %q", cs, want, text)
+	}
+	for _, fh := range cs {
+		wantP := "/mirror/dists/sid/main/by-hash/" + fh.ByHash + "/" + fh.Hash
+		if gp := fh.ByHashPath("/mirror/dists/sid/main/Packages.xz"); gp != wantP {
+			c.Failf("FileHash.ByHashPath = %q, want %q", gp, wantP)
+		}
+		c.Cover("accessor:ByHashPath")
 	}
 	c.Cover("layout:checksum-block")
 	c.Nontrivial()
